@@ -311,18 +311,32 @@ def correspondence(ctx, model_ok, tmp):
                      f"flatten:{ops_log}:{path}", {"kind": "history", "ops": ops_log, "path": path, "got": got, "want": fl})
             # the dimensionless dataset type: first collection of the flattened path that holds it
             want0 = next((contents0[c] for c in fl if c in contents0), None)
-            got0 = {}
-            r_ = reg.findDataset(dt0, collections=pn)
-            got0["Registry.findDataset"] = None if r_ is None else r_.id
-            r_ = b.find_dataset(dt0, collections=pn)
-            got0["Butler.find_dataset"] = None if r_ is None else r_.id
-            try:
-                rows0 = list(reg.queryDatasets(dt0, collections=pn, findFirst=True))
-                got0["Registry.queryDatasets(findFirst)"] = [x.id for x in rows0][0] if len(rows0) == 1 else (None if not rows0 else f"{len(rows0)} rows")
-                rows0 = b.query_datasets(dt0, collections=pn, find_first=True, explain=False)
-                got0["Butler.query_datasets(find_first)"] = [x.id for x in rows0][0] if len(rows0) == 1 else (None if not rows0 else f"{len(rows0)} rows")
-            except Exception as e:
-                got0["query"] = f"{type(e).__name__}: {str(e)[:80]}"
+
+            def probe0():
+                g0 = {}
+                r_ = reg.findDataset(dt0, collections=pn)
+                g0["Registry.findDataset"] = None if r_ is None else r_.id
+                r_ = b.find_dataset(dt0, collections=pn)
+                g0["Butler.find_dataset"] = None if r_ is None else r_.id
+                try:
+                    rows0 = list(reg.queryDatasets(dt0, collections=pn, findFirst=True))
+                    g0["Registry.queryDatasets(findFirst)"] = [x.id for x in rows0][0] if len(rows0) == 1 else (None if not rows0 else f"{len(rows0)} rows")
+                    rows0 = b.query_datasets(dt0, collections=pn, find_first=True, explain=False)
+                    g0["Butler.query_datasets(find_first)"] = [x.id for x in rows0][0] if len(rows0) == 1 else (None if not rows0 else f"{len(rows0)} rows")
+                except Exception as e:
+                    g0["query"] = f"{type(e).__name__}: {str(e)[:80]}"
+                return g0
+
+            got0 = probe0()
+            # ... and the same inside ONE caching context in which the other dataset type was looked up first, collection by collection
+            # (what the context caches about a collection while answering for one dataset type must not hide another type in it)
+            with reg.caching_context():
+                for nm_ in pn:
+                    try:
+                        reg.findDataset(dt, instrument="I", detector=KEYS[0], collections=[nm_])
+                    except Exception:
+                        pass
+                got0.update({k_ + " [inside a caching context, after lookups of the other type]": v_ for k_, v_ in probe0().items()})
             ctx.evaluations += 1
             ctx.count("dimensionless-find-first" + (":match" if want0 else ""))
             for api, v in got0.items():
@@ -399,6 +413,42 @@ def correspondence(ctx, model_ok, tmp):
                         viol(f"adding the empty collection to {path} -> {path2} changes findDataset(detector={k}) from {want_all[k]} to {v}",
                              f"nomatch:{ops_log}:{path2}:{k}", {"kind": "history", "ops": ops_log, "path": path2, "key": k})
 
+    # ---- search paths that mix a CALIBRATION collection with runs: first match in path order, through the legacy
+    # queryDataIds(...).findDatasets(findFirst=True) as well (it ranks the collections itself)
+    from lsst.daf.butler import Timespan
+
+    dtc = DatasetType("dtc", {"instrument", "detector"}, "StructuredDataDict", universe=b.dimensions, isCalibration=True)
+    reg.registerDatasetType(dtc)
+    for nm in ("k_r0", "k_r1", "k_r2"):
+        reg.registerCollection(nm, CollectionType.RUN)
+    reg.registerCollection("k_cal", CollectionType.CALIBRATION)
+    reg.registerCollection("k_chain", CollectionType.CHAINED)
+    (c1,) = reg.insertDatasets(dtc, [{"instrument": "I", "detector": 1}], run="k_r1")
+    (c2,) = reg.insertDatasets(dtc, [{"instrument": "I", "detector": 1}], run="k_r2")
+    reg.certify("k_cal", [c2], Timespan(None, None))
+    holder = {"k_r1": c1.id, "k_r2": c2.id, "k_cal": c2.id}
+    for path in (["k_r0", "k_r1", "k_cal"], ["k_r0", "k_cal", "k_r1"], ["k_cal", "k_r1"], ["k_r1", "k_cal"], ["k_r0", "k_r2", "k_r1", "k_cal"]):
+        want_c = next(holder[c_] for c_ in path if c_ in holder)
+        reg.setCollectionChain("k_chain", path)
+        for spelled, colls in (("path", path), ("chain", ["k_chain"])):
+            got_c = {}
+            try:
+                rows_ = list(reg.queryDataIds(["instrument", "detector"], instrument="I", detector=1).findDatasets(dtc, collections=colls, findFirst=True))
+                got_c["Registry.queryDataIds(...).findDatasets(findFirst)"] = rows_[0].id if len(rows_) == 1 else f"{len(rows_)} rows"
+            except Exception as e:
+                got_c["Registry.queryDataIds(...).findDatasets(findFirst)"] = f"{type(e).__name__}"
+            try:
+                r_ = reg.findDataset(dtc, instrument="I", detector=1, collections=colls, timespan=Timespan(None, None))
+                got_c["Registry.findDataset"] = None if r_ is None else r_.id
+            except Exception as e:
+                got_c["Registry.findDataset"] = f"{type(e).__name__}"
+            ctx.evaluations += 1
+            ctx.count("calibration-in-search-path")
+            for api, v in got_c.items():
+                if v != want_c:
+                    viol(f"{api} over the {spelled} {path} (a CALIBRATION collection among runs) returns {[k_ for k_, i_ in holder.items() if i_ == v] or v}, "
+                         f"the first collection of the path with a match holds {[k_ for k_, i_ in holder.items() if i_ == want_c]}",
+                         f"calib-path:{api}:{spelled}:{path}", {"kind": "calib-path", "path": path, "api": api})
     if model_ok:
         got = core.driver(req)
         nd = 0
